@@ -319,10 +319,65 @@ pub fn run_c13(out: &mut Out, rng: &mut Rng, tier: Tier) -> String {
             }
         }
     }
+    // extents that only zero-sized element types can reach (beyond isize::MAX): the index
+    // computation itself through the verif-hooks wrapper, and real `Matrix<()>` accesses
+    let big = [1usize, 2, 3, 7, (1 << 63) - 1, 1 << 63, (1 << 63) + 1, usize::MAX - 1, usize::MAX];
+    out.case("wrap huge extents (zero-sized elements / hooks)");
+    out.nontrivial();
+    for &a in &big {
+        for &b in &big {
+            for order in ORDERS {
+                for &r in &ext {
+                    for &c in &ext {
+                        let op = format!("whook {} {a} {b} {r} {c}", ord_ch(order));
+                        out.announce(&op);
+                        let res = catch(|| matreex::verif_hooks::from_wrapping_index(WrappingIndex::new(r, c), order, (a, b)));
+                        let obs = match res {
+                            None => "panic".to_string(),
+                            Some((mj, mn)) => format!("ok {mj} {mn}"),
+                        };
+                        let rr = (r as i128).rem_euclid(a as i128) as usize;
+                        let cc = (c as i128).rem_euclid(b as i128) as usize;
+                        let want = match order {
+                            Order::RowMajor => format!("ok {rr} {cc}"),
+                            Order::ColMajor => format!("ok {cc} {rr}"),
+                        };
+                        if obs != want {
+                            out.oracle_fail(&format!("{op}: expected `{want}`, implementation gave `{obs}`"));
+                        }
+                        out.count("index:huge-extent");
+                        out.observe(&obs);
+                    }
+                }
+            }
+            // a real matrix of zero-sized elements with that shape, when the size fits usize
+            if let Some(n) = a.checked_mul(b) {
+                let mut v: Vec<()> = Vec::new();
+                unsafe { v.set_len(n) };
+                let m = mk_from(Order::RowMajor, a, b, v);
+                for &r in &ext {
+                    for &c in &ext {
+                        let op = format!("wzget R {a} {b} {r} {c}");
+                        out.announce(&op);
+                        let obs = match catch(|| m.get(WrappingIndex::new(r, c)).map(|_| ())) {
+                            None => "panic".to_string(),
+                            Some(Ok(())) => "ok".to_string(),
+                            Some(Err(e)) => format!("err {}", err_name(e)),
+                        };
+                        if obs != "ok" {
+                            out.oracle_fail(&format!("{op}: expected `ok`, implementation gave `{obs}`"));
+                        }
+                        out.observe(&obs);
+                    }
+                }
+            }
+        }
+    }
     out.exhaustive = true;
     format!(
         "exhaustive: all shapes 0..={bound} x 0..={bound} (empty ones included) plus 1x{long} and {long}x1, both orders, all (row, col) in [-3*extent-2, 3*extent+2]^2 \
          (400 random pairs from that window for the long shapes) plus all 49 pairs of {{isize::MIN, MIN+1, -1, 0, 1, MAX-1, MAX}}; access paths get/get_mut/index/index_mut/get_unchecked/get_unchecked_mut in rotation. \
+         Plus extents {{1,2,3,7, 2^63-1, 2^63, 2^63+1, usize::MAX-1, usize::MAX}}^2 x the 49 extreme pairs through the from_wrapping_index hook and on real zero-sized-element matrices. \
          A case = one matrix with all its accesses; every case is non-trivial (several periods in both directions)"
     )
 }
